@@ -55,6 +55,8 @@ func TestC14(t *testing.T) {
 		cases = append(cases, mon.CaseSpec{Name: "nogrowth", Spec: spec{Kind: "nogrowth", Proto: "pair", RMs: 20, MaxMs: 0, Async: true}})
 		cases = append(cases, mon.CaseSpec{Name: "reset", Spec: spec{Kind: "reset", Proto: "pair", RMs: 5, MaxMs: 2000, Async: true}})
 		cases = append(cases, mon.CaseSpec{Name: "syncfail", Spec: spec{Kind: "syncfail", Proto: "pair", RMs: 10, MaxMs: 0, Async: false}})
+		cases = append(cases, mon.CaseSpec{Name: "pairbusy", Spec: spec{Kind: "pairbusy", Proto: []string{"pair", "pair1"}[i%2], RMs: []int{5, 20}[i%2], MaxMs: []int{0, 40}[(i/2)%2], Async: true}})
+		cases = append(cases, mon.CaseSpec{Name: "capfine", Spec: spec{Kind: "capfine", Proto: "pair", RMs: 250, MaxMs: 1000, Async: true}})
 	}
 	r.Run(cases, func(c *mon.Case) {
 		sp := c.Spec.(spec)
@@ -72,6 +74,7 @@ type rig struct {
 	d       mangos.Dialer
 	vd      *vt.DialerCtl
 	R, Max  time.Duration
+	proto   string
 	mu      sync.Mutex
 	rejPlan map[int]bool          // ordinals (among successful transport dials) the hook rejects in Attaching
 	nAttach int                   // Attaching events seen so far
@@ -81,7 +84,7 @@ type rig struct {
 }
 
 func newRig(c *mon.Case, sp spec) *rig {
-	g := &rig{c: c, R: time.Duration(sp.RMs) * time.Millisecond, Max: time.Duration(sp.MaxMs) * time.Millisecond,
+	g := &rig{c: c, proto: sp.Proto, R: time.Duration(sp.RMs) * time.Millisecond, Max: time.Duration(sp.MaxMs) * time.Millisecond,
 		rejPlan: map[int]bool{}, rejAt: map[int]time.Duration{}}
 	// the hook decides from the script, by ordinal of the connection: a dialer that reconnects by
 	// itself within a few milliseconds cannot outrun the script
@@ -163,6 +166,10 @@ func run(c *mon.Case, sp spec) {
 		runReset(c, sp, g)
 	case "syncfail":
 		runSyncFail(c, sp, g)
+	case "pairbusy":
+		runPairBusy(c, sp, g)
+	case "capfine":
+		runCapFine(c, sp, g)
 	}
 	c.Sig("%s|%s|%d|%d|%v|%s|%s", sp.Kind, sp.Proto, sp.RMs, sp.MaxMs, sp.Async, sp.Script, sp.End)
 }
@@ -357,7 +364,11 @@ func exchange(c *mon.Case, g *rig, p *vt.Pipe) bool {
 	}, mon.AwaitOpts{MaxTimer: g.R}) {
 		return false
 	}
-	p.Inject(msg)
+	if g.proto == "pair1" {
+		p.Inject(append([]byte{0, 0, 0, 0}, msg...)) // PAIR1 wire header: hop count
+	} else {
+		p.Inject(msg)
+	}
 	var got []byte
 	r := mon.Go("Recv", func() (interface{}, error) { b, e := g.sock.Recv(); got = b; return nil, e })
 	if !c.AwaitOrViolate("dial/traffic-not-resumed:recv", "Recv of a message arriving on the new connection", r.Done, mon.AwaitOpts{MaxTimer: g.R}) {
@@ -490,4 +501,114 @@ func runSyncFail(c *mon.Case, sp spec, g *rig) {
 	}
 	g.sock.Close()
 	c.Nontrivial()
+}
+
+// runPairBusy: every connection the dialer makes is refused by the protocol (the PAIR socket
+// already has its peer).  The dialer must keep trying, at least ReconnectTime apart, and connect
+// as soon as the first peer has gone.
+func runPairBusy(c *mon.Case, sp spec, g *rig) {
+	lname := hx.Uniq("c14l")
+	L := vt.L(lname)
+	c.Cleanup(func() { vt.Forget(lname) })
+	if err := g.sock.Listen(vt.Addr(lname)); err != nil {
+		c.Inconclusive("setup: %v", err)
+		return
+	}
+	first := L.Connect()
+	if !c.AwaitOrViolate("harness:attach-stuck", "first PAIR peer attaching", func() bool { return g.attached() >= 1 }, mon.AwaitOpts{}) {
+		return
+	}
+	g.vd.SetDefault(vt.Outcome{Kind: vt.Succeed})
+	if err := g.d.Dial(); err != nil {
+		c.Violate("dial/async-dial-error", "asynchronous Dial returned %v", err)
+		return
+	}
+	n := 5
+	if !g.awaitAttempt(n, g.capAfter(n), "protocol-refusal") {
+		return
+	}
+	log := g.vd.Log()
+	lbs := map[int]time.Duration{}
+	kinds := map[int]string{}
+	for i := 1; i <= n; i++ {
+		lbs[i], kinds[i] = log[i-1].End, "connection the protocol refused"
+		if p := log[i-1].Pipe; p != nil && i-1 < n-1 && !p.LibClosed() {
+			c.Violate("dial/refused-connection-kept", "connection #%d was refused by the protocol (PAIR busy) but the library has not closed it although the dialer already dialled again", i-1)
+		}
+	}
+	g.lowerBounds(lbs, kinds)
+	if g.attached() != 1 {
+		c.Violate("dial/second-pair-peer-attached", "%d pipes attached while the first PAIR peer was connected", g.attached())
+	}
+	// the first peer leaves: the dialer takes over
+	first.Drop()
+	if !c.AwaitOrViolate("dial/no-takeover-after-first-peer-left", "a dialled connection attaching once the first PAIR peer has gone", func() bool { return g.attached() >= 2 }, mon.AwaitOpts{MaxTimer: g.capAfter(n + 2)}) {
+		return
+	}
+	var cur *vt.Pipe
+	for _, p := range g.vd.Pipes() {
+		if !p.LibClosed() {
+			cur = p
+		}
+	}
+	if cur == nil || !exchange(c, g, cur) {
+		if cur == nil {
+			c.Inconclusive("no open dialled pipe found")
+		}
+		return
+	}
+	g.sock.Close()
+	c.Count("attempts", len(g.vd.Log()))
+	c.Nontrivial()
+}
+
+// runCapFine: with ReconnectTime 250ms and MaxReconnectTime 1s the delay, once it has reached the
+// maximum, stays there.  After the first gap of at least the maximum, three consecutive gaps above
+// the maximum by more than the canary-calibrated slack are a violation (a single long gap is a
+// scheduling artefact, not a verdict).
+func runCapFine(c *mon.Case, sp spec, g *rig) {
+	g.vd.SetDefault(vt.Outcome{Kind: vt.Refuse})
+	if err := g.d.Dial(); err != nil {
+		c.Violate("dial/async-dial-error", "asynchronous Dial returned %v", err)
+		return
+	}
+	reached := -1
+	over := 0
+	worst := time.Duration(0)
+	for i := 1; i <= 24; i++ {
+		if !g.awaitAttempt(i, g.Max, "capfine") {
+			return
+		}
+		log := g.vd.Log()
+		gap := log[i].Start - log[i-1].End
+		c.Count("gaps_checked", 1)
+		if gap < g.R {
+			c.Violate("dial/too-soon:after-refused attempt", "gap %v below the reconnect time %v", gap, g.R)
+		}
+		if reached < 0 {
+			if gap >= g.Max {
+				reached = i // the delay has grown to the maximum (or beyond) by now
+			}
+			continue
+		}
+		if mon.UpperBoundExceeded(gap, g.Max) {
+			over++
+			if gap > worst {
+				worst = gap
+			}
+		} else {
+			over = 0
+		}
+		if over >= 3 {
+			c.Violate("dial/backoff-exceeds-max", "after the delay reached the maximum, three consecutive gaps between connection attempts exceed MaxReconnectTime %v (worst %v; scheduler canary worst oversleep %v): %s", g.Max, worst, mon.CanaryWorst(), renderLog(log[reached-1:]))
+			break
+		}
+		if i >= reached+4 {
+			break
+		}
+	}
+	g.sock.Close()
+	if reached > 0 {
+		c.Nontrivial()
+	}
 }
